@@ -22,6 +22,7 @@ pub fn params(tier: Tier) -> WsGen {
         max_offers_in_req: 12,
         signalling_w: 12,
         access_list: false,
+        time_w: 1,
     }
 }
 
